@@ -94,7 +94,14 @@ class Report:
         self.violations.append({"signature": signature, "what": what, "replay": replay})
         return True
 
+    RESOURCE = ("Overflow encountered when expanding vector", "out of memory", "MemoryError", "max. memory exceeded", "solver resource limit", "std::bad_alloc", "bad_alloc")
+
     def encoder_defect(self, what):
+        if any(r in what for r in self.RESOURCE):
+            # the solver ran out of resources on this item: undecided (reported as such), not a modelling error
+            self.queries["undecided"] = self.queries.get("undecided", 0) + 1
+            self.undecided.append("solver resource limit: " + what[:200])
+            return
         self.encoder_defects.append(what)
 
     # -- output -----------------------------------------------------------
@@ -157,12 +164,49 @@ class Report:
         sys.exit(1 if vcount else 0)
 
 
+class ItemTimeout(Exception):
+    pass
+
+
+def _alarm(signum, frame):
+    raise ItemTimeout("item time limit")
+
+
+def _limits():
+    """Per-worker resource limits: one runaway item must not take the machine (62 GB, no swap) or the run with it."""
+    import resource
+    gb = float(os.environ.get("VERIF_WORKER_MEM_GB", "8"))
+    try:
+        resource.setrlimit(resource.RLIMIT_AS, (int(gb * (1 << 30)), int(gb * (1 << 30))))
+    except (ValueError, OSError):
+        pass
+    try:
+        import z3
+        z3.set_param("memory_max_size", int(gb * 1024 * 0.7))      # z3 gives up with an exception before the OS limit kills the worker
+    except Exception:
+        pass
+
+
 def _wrap(args):
+    import signal
     fn, item = args
+    limit = int(os.environ.get("VERIF_ITEM_TIMEOUT", "1500" if tier() == "quick" else "3600"))
+    try:
+        old = signal.signal(signal.SIGALRM, _alarm)
+        signal.alarm(limit)
+    except (ValueError, OSError):
+        old = None
     try:
         return fn(item)
+    except ItemTimeout:
+        return {"crash": f"solver resource limit: item time limit of {limit}s (MemoryError class: reported as undecided)", "trace": "", "item": item}
+    except MemoryError:
+        return {"crash": "MemoryError: worker memory limit", "trace": "", "item": item}
     except Exception as e:
         return {"crash": f"{type(e).__name__}: {e}", "trace": traceback.format_exc()[-1500:], "item": item}
+    finally:
+        if old is not None:
+            signal.alarm(0)
 
 
 def pmap(fn, items, jobs=None, chunksize=1):
@@ -174,5 +218,6 @@ def pmap(fn, items, jobs=None, chunksize=1):
     from smt import drv
     drv.build()
     ctx = multiprocessing.get_context("fork")
-    with ctx.Pool(jobs) as pool:
+    _pool_init = _limits
+    with ctx.Pool(jobs, initializer=_pool_init) as pool:
         return pool.map(_wrap, [(fn, it) for it in items], chunksize=chunksize)
